@@ -54,4 +54,21 @@ theorem obsEq_of_abs {a b : Db} (ha : a.SInv) (hb : b.SInv) (h : a.abs = b.abs) 
         intro p; obtain ⟨v, id⟩ := p
         exact congrFun (congrFun this v) id
 
+theorem count_ixValues (l : IxMap) (v : Val) (id : Int) : (ixValues l v).count id = l.count (v, id) := by
+  unfold ixValues
+  induction l with
+  | nil => simp
+  | cons p rest ih =>
+    obtain ⟨a, b⟩ := p
+    by_cases ha : a = v
+    · subst ha
+      simp only [List.filterMap_cons, if_true, List.count_cons, ih]
+      by_cases hb : b = id
+      · subst hb; simp
+      · have : ((a, b) == (a, id)) = false := by simp [hb]
+        simp [hb, this]
+    · have : ((a, b) == (v, id)) = false := by simp [ha]
+      simp only [List.filterMap_cons, ha, if_false, List.count_cons, ih, this]
+      simp
+
 end AgdbDb
